@@ -7,6 +7,9 @@ import IkeModel.Generated.Gen_integ
 import IkeModel.Generated.Gen_prf
 import IkeModel.Generated.Gen_esn
 import IkeModel.Generated.Gen_dh
+import IkeModel.GenAbsSa
+import DriverOps
+import DriverKeys
 
 /-! Driver for the GENERATED model (`IkeModel/Generated/Gen_message.lean`, written by
 `tools/go2lean` from /repo's current source): the same line protocol as `Driver.lean`, the same
@@ -304,6 +307,131 @@ def gReencOp (kind : String) (b : Bytes) : String :=
     | .fault => "decode-panic"
   else "unsupported"
 
+/-! ### `ike.go` and `security/security.go` as translated: the SA object is built from the model's (`repSa`) -/
+
+open Ike.GenAbsSa in
+def gProtectOp (ts : Array String) : String :=
+  match DriverOps.rdSA ts 1, ts[11]?, (ts[12]?).bind parseX, Sx.parseTokens ts 13 with
+  | some sa, some roleS, some rnd, some (sx, _) =>
+    match rdMsg sx with
+    | some m =>
+      gresStr (fun (x : Rand × IKEMessage × Gen.security.IKESAKey × Bytes) => xhex x.2.2.2)
+        (Gen.ike.EncodeEncrypt Prims.real { buf := rnd } (GenAbs.repMsg m) (some (repSa sa)) (roleS == "I"))
+    | none => "bad-msg"
+  | _, _, _, _ => "bad-args"
+
+def gMsgStr (m : IKEMessage) : String := optStr (fun m => (sxMsg m).toStr) (GenAbs.absMsg m)
+
+open Ike.GenAbsSa in
+def gUnprotect (k : Gen.security.IKESAKey) (role : Bool) (withHdr : Bool) (bs : Bytes) : Res (Gen.security.IKESAKey × IKEMessage) :=
+  if withHdr then
+    match ParseHeader bs with
+    | .ok h => Gen.ike.DecodeDecrypt Prims.real bs (some h) (some k) role
+    | .err => .err
+    | .fault => .fault
+  else Gen.ike.DecodeDecrypt Prims.real bs none (some k) role
+
+open Ike.GenAbsSa in
+def gUnprotectOp (ts : Array String) : String :=
+  match DriverOps.rdSA ts 1, ts[11]?, ts[12]?, (ts[13]?).bind parseX with
+  | some sa, some roleS, some hS, some bs =>
+    gresStr (fun (x : Gen.security.IKESAKey × IKEMessage) => gMsgStr x.2) (gUnprotect (repSa sa) (roleS == "I") (hS == "1") bs)
+  | _, _, _, _ => "bad-args"
+
+open Ike.GenAbsSa in
+def gIkeKeysRes (r : Res Gen.security.IKESAKey) : String :=
+  match r with
+  | .ok k => let sa := absSa k
+             if DriverKeys.objectsKeyed sa then "ok " ++ DriverKeys.showKeys sa else "objects-not-keyed " ++ DriverKeys.showKeys sa
+  | .err => "err"
+  | .fault => "panic"
+
+open Ike.GenAbsSa in
+def gBlank (e : EncrInfo) (i : IntegInfo) (p : PrfInfo) : Gen.security.IKESAKey :=
+  { DhInfo := someDh, EncrInfo := repEncrInfo e, IntegInfo := repIntegInfo i, PrfInfo := repPrfInfo p }
+
+open Ike.GenAbsSa in
+def gIkeKeysOp (ts : Array String) : String :=
+  match DriverKeys.rdInfos ts 1, DriverKeys.tokX ts 4, DriverKeys.tokX ts 5, DriverKeys.tokNat ts 6, DriverKeys.tokNat ts 7 with
+  | some (e, i, p), some nonce, some secret, some si, some sr =>
+    gIkeKeysRes (Gen.security.IKESAKey.GenerateKeyForIKESA Prims.real (some (gBlank e i p)) nonce secret (UInt64.ofNat si) (UInt64.ofNat sr))
+  | _, _, _, _, _ => "bad-args"
+
+open Ike.GenAbsSa in
+def gIkeKeys2Op (ts : Array String) : String :=
+  match DriverKeys.rdInfos ts 1, DriverKeys.tokX ts 4, DriverKeys.tokX ts 5, DriverKeys.tokNat ts 6, DriverKeys.tokNat ts 7,
+      DriverKeys.tokX ts 8, DriverKeys.tokX ts 9, DriverKeys.tokNat ts 10, DriverKeys.tokNat ts 11 with
+  | some (e, i, p), some n1, some s1, some si1, some sr1, some n2, some s2, some si2, some sr2 =>
+    match Gen.security.IKESAKey.GenerateKeyForIKESA Prims.real (some (gBlank e i p)) n1 s1 (UInt64.ofNat si1) (UInt64.ofNat sr1) with
+    | .ok k1 => gIkeKeysRes (Gen.security.IKESAKey.GenerateKeyForIKESA Prims.real (some k1) n2 s2 (UInt64.ofNat si2) (UInt64.ofNat sr2))
+    | _ => "unsupported"   -- the object state after a failed call is not part of the translation
+  | _, _, _, _, _, _, _, _, _ => "bad-args"
+
+open Ike.GenAbsSa in
+def gChildLoop (k : Gen.security.IKESAKey) (c0 : Gen.security.ChildSAKey) (nonce : Bytes) : Nat → Nat → Option Gen.security.IKESAKey
+  | 0, _ => some k
+  | n + 1, j =>
+    match Gen.security.ChildSAKey.GenerateKeyForChildSA Prims.real (some c0) (some k) (nonce ++ [UInt8.ofNat j]) with
+    | .ok (_, k') => gChildLoop k' c0 nonce n (j + 1)
+    | _ => none
+
+open Ike.GenAbsSa in
+def gChildKeysOp (ts : Array String) : String :=
+  match DriverKeys.rdPrf ts 1, DriverKeys.tokX ts 2, DriverKeys.rdChild ts 3, DriverKeys.tokX ts 5, DriverKeys.tokNat ts 6 with
+  | some p, some skd, some c0, some nonce, some k =>
+    match gChildLoop (repSa (DriverKeys.saWithSkD p skd)) (repChild c0) nonce (k - 1) 1 with
+    | some sa =>
+      gresStr (fun (x : Gen.security.ChildSAKey × Gen.security.IKESAKey) => DriverKeys.showChild (absChild x.1))
+        (Gen.security.ChildSAKey.GenerateKeyForChildSA Prims.real (some (repChild c0)) (some sa) nonce)
+    | none => "unsupported"
+  | _, _, _, _, _ => "bad-args"
+
+open Ike.GenAbsSa in
+def gChildKeys2Op (ts : Array String) : String :=
+  match DriverKeys.rdPrf ts 1, DriverKeys.tokX ts 2, DriverKeys.rdChild ts 3, DriverKeys.tokX ts 5, DriverKeys.tokX ts 6 with
+  | some p, some skd, some c0, some n1, some n2 =>
+    match Gen.security.ChildSAKey.GenerateKeyForChildSA Prims.real (some (repChild c0)) (some (repSa (DriverKeys.saWithSkD p skd))) n1 with
+    | .ok (c1, sa1) =>
+      gresStr (fun (x : Gen.security.ChildSAKey × Gen.security.IKESAKey) => DriverKeys.showChild (absChild x.1))
+        (Gen.security.ChildSAKey.GenerateKeyForChildSA Prims.real (some c1) (some sa1) n2)
+    | .err => "err"
+    | .fault => "panic"
+  | _, _, _, _, _ => "bad-args"
+
+/-- a history on ONE generated SA object (C17).  After a call that returns an error the translation has no object
+state (an error return drops the mutated parameters): the history continues on the state before the call, and the
+line is answered `unsupported` when that could matter — never guessed. -/
+def gSaRun (k : Gen.security.IKESAKey) : List SaOp → List String
+  | [] => []
+  | .protect role rnd m :: rest =>
+    match Gen.ike.EncodeEncrypt Prims.real { buf := rnd } (GenAbs.repMsg m) (some k) role with
+    | .ok (_, _, k', out) => ("ok " ++ xhex out) :: gSaRun k' rest
+    | .err => "err" :: gSaRun k rest
+    | .fault => "panic" :: gSaRun k rest
+  | .unprotect role withHdr bs :: rest =>
+    match gUnprotect k role withHdr bs with
+    | .ok (k', m) => ("ok " ++ gMsgStr m) :: gSaRun k' rest
+    | .err => "err" :: gSaRun k rest
+    | .fault => "panic" :: gSaRun k rest
+  | .child encrLen integLen nonce :: rest =>
+    let c : Gen.security.ChildSAKey :=
+      { EncrKInfo := .EncrAesCbc ⟨(encrLen : Int)⟩,
+        IntegKInfo := if integLen = 0 then .nil_ else .AuthHmacSha1_96 ⟨(integLen : Int), 12⟩ }
+    match Gen.security.ChildSAKey.GenerateKeyForChildSA Prims.real (some c) (some k) nonce with
+    | .ok (c', k') =>
+      ("ok " ++ xhex c'.InitiatorToResponderEncryptionKey ++ " " ++ xhex c'.InitiatorToResponderIntegrityKey ++ " " ++
+        xhex c'.ResponderToInitiatorEncryptionKey ++ " " ++ xhex c'.ResponderToInitiatorIntegrityKey) :: gSaRun k' rest
+    | .err => "err" :: gSaRun k rest
+    | .fault => "panic" :: gSaRun k rest
+
+def gSaOpsOp (ts : Array String) : String :=
+  match DriverOps.rdSA ts 1, DriverOps.parseAll ts 11 #[] with
+  | some sa, some sxs =>
+    match sxs.mapM DriverOps.rdSaOp with
+    | some ops => " | ".intercalate (gSaRun (Ike.GenAbsSa.repSa sa) ops)
+    | none => "bad-args"
+  | _, _ => "bad-args"
+
 def gHandle (line : String) : String :=
   let ts := Sx.tokens line
   if h : 0 < ts.size then
@@ -326,6 +454,13 @@ def gHandle (line : String) : String :=
     else if op == "cbc-decrypt" then gCbcDecryptOp ts
     else if op == "dhpub" then gDhPubOp ts
     else if op == "dhshared" then gDhSharedOp ts
+    else if op == "protect" then gProtectOp ts
+    else if op == "unprotect" then gUnprotectOp ts
+    else if op == "ikekeys" then gIkeKeysOp ts
+    else if op == "ikekeys2" then gIkeKeys2Op ts
+    else if op == "childkeys" then gChildKeysOp ts
+    else if op == "childkeys2" then gChildKeys2Op ts
+    else if op == "saops" then gSaOpsOp ts
     else if op == "reenc" then
       if h3 : ts.size = 3 then
         match parseX ts[2] with
